@@ -13,14 +13,14 @@ TRUSTED = [
     " (tied to /repo by comparing the REAL lexer's token dump and ParseSeqQL's result shape on every generated string)",
     "Go harness harness/cmd/hC12 (generators, AST printer, text rendering of token lists, dump of unicode classes"
     " and of indexType through parser/export_verif_c12.go)",
-    "Go's unicode tables enter as per-case class data (oracle instance), never as axioms",
+    "Go's unicode tables (classes, ToLower) enter as per-case data (oracle instance), never as axioms",
     "legacy ParseQuery and ParseAggregationFilter on raw bytes: NOT modelled below token level; fuzzed only",
 ]
 ASSUME = [
     "token-level abstraction (semantics theorems): a field filter (k:v, k:in(..), text field with k words) is one token",
     "stage 2 theorems hold for every class oracle that does not classify U+FFFD as space/letter/digit (true of Go's"
     " tables; checked on every generated case) and for every field mapping",
-    "lexer-to-parser glue abstracts values: a keyword/path literal and a range are one leaf, a text literal is the AND"
+    "lexer-to-parser glue abstracts values: a keyword/path literal and a range are one leaf in the boolean structure (the range's two bound terms and a keyword literal's terms ARE modelled: keyword_terms with rune-wise ToLower as oracle; IncludeFrom/IncludeTo are not), a text literal is the AND"
     " of its words, in(..) is the parenthesised OR of its members, a well-formed pipe section is the terminator token TPipe (the token-level parser folds its OR/AND accumulators there as at end of input); term contents,"
     " case folding of values and pipe field names are not modelled",
     "raw-byte totality of the legacy parser (ParseQuery) and of ParseAggregationFilter is established by fuzzing only (PARTIAL)",
@@ -34,6 +34,8 @@ RULE = ("exhaustive: all boolean trees up to the tier's node bound over 3 atoms 
         "result shape); generated token lists rendered in every quote style and lexed back (spec: the generator's tokens); "
         "f:in(e1..en) on text/path/keyword fields with multi-word members in every position vs the written-out OR of the "
         "members as stand-alone filters (truth table over the numbered literals of both real ASTs); "
+        "range filters f:[a, b] (both bracket kinds, `,`/to, plain/quoted/raw/escaped bounds, mixed and non-ASCII case, wildcard ends, "
+        "conf.CaseSensitive off and on, _exists_) vs the plain literals f:a, f:b: the stored bounds must be the literals' single terms; "
         "raw-string fuzz of all three entry points over every mapping type. non-trivial = expression has "
         "a NOT and a binary operator / token list parses / tree has NOT and OR / raw string has >= 3 tokens and a quoted "
         "token, a comment or parses / round trip of >= 2 atoms; distinct by input")
